@@ -2,6 +2,7 @@ package sim
 
 import (
 	"context"
+	"os"
 	"fmt"
 	"strings"
 
@@ -165,7 +166,7 @@ func (r *Run) user(a Action) {
 		if r.WorkloadVersion() == ver {
 			return
 		}
-		if a.Arg == UserRollback && KnownOpen[FindingRevertBeforeObserved] && r.revertBeforeObserved() {
+		if a.Arg == UserRollback && KnownOpen[FindingRevertBeforeObserved] && os.Getenv("VERIF_REPLAY") == "" && r.revertBeforeObserved() {
 			r.W.Excluded[FindingRevertBeforeObserved]++
 			return
 		}
@@ -323,6 +324,15 @@ func (r *Run) Complete(budget int) Outcome {
 	w := r.W
 	start := w.Reconciles
 	for n := 0; n < budget; n++ {
+		// the user is responsive: approvals and resumes are granted as soon as they are needed
+		if r.needApproval() {
+			r.Apply(Action{Kind: "user", Arg: UserApprove})
+			continue
+		}
+		if ro := w.Rollout(r.S.Namespace, r.S.Name); ro != nil && ro.Spec.Strategy.Paused && ro.DeletionTimestamp == nil {
+			r.Apply(Action{Kind: "user", Arg: UserResume})
+			continue
+		}
 		progress := false
 		if len(w.pending) > 0 {
 			r.Apply(Action{Kind: "reconcile", I: 0})
@@ -333,14 +343,6 @@ func (r *Run) Complete(budget int) Outcome {
 			progress = true
 		}
 		if progress {
-			continue
-		}
-		if r.needApproval() {
-			r.Apply(Action{Kind: "user", Arg: UserApprove})
-			continue
-		}
-		if ro := w.Rollout(r.S.Namespace, r.S.Name); ro != nil && ro.Spec.Strategy.Paused && ro.DeletionTimestamp == nil {
-			r.Apply(Action{Kind: "user", Arg: UserResume})
 			continue
 		}
 		ok, detail := r.Terminal()
